@@ -439,6 +439,53 @@ Section Multi.
     md_loop 0 (fst cg) (snd cg) 0 [].
 End Multi.
 
+(* ------------------------------------ Analysis.generate_signal_events (the site a user calls) *)
+Section Ana.
+  Variable rng : Type.
+  Variable E : Type.
+
+  (* for (ds_idx, sig_events) in ds_sig_events_dict.items(): n_events_list[ds_idx] += len(sig_events);
+     events_list[ds_idx] = sig_events  or  events_list[ds_idx].append(sig_events) *)
+  Fixpoint an_inject (d : list (Z * list E)) (ns : list Z) (evs : list (option (list E)))
+    : res (list Z * list (option (list E))) :=
+    match d with
+    | [] => Ok (ns, evs)
+    | (k, v) :: r =>
+      do n <- py_get ns k;
+      do ns' <- py_set ns k (an_inc n (zlen v));
+      do e <- py_get evs k;
+      do evs' <- py_set evs k
+           (Some (if an_slot_empty (match e with None => None | Some _ => Some 0 end) then v
+                  else match e with Some old => old ++ v | None => v end));
+      an_inject r ns' evs'
+    end.
+
+  (* gen = self._sig_generator.generate_signal_events(rss, mean=mean_n_sig, **sig_kwargs) *)
+  Definition an_generate (gen : rng -> Z -> res (Z * list (Z * list E) * rng)) (n_datasets : Z)
+             (g : rng) (mean : Z) (ns : list Z) (evs : list (option (list E)))
+    : res (Z * list Z * list (option (list E)) * rng) :=
+    if negb (zlen ns =? n_datasets) || negb (zlen evs =? n_datasets) then Err ValueError
+    else if an_mean_zero mean then Ok (0, ns, evs, g)
+    else
+      do r <- gen g mean;
+      do x <- an_inject (snd (fst r)) ns evs;
+      Ok (fst (fst r), fst x, snd x, snd r).
+End Ana.
+
+(* MultiDatasetSignalGenerator.change_shg_mgr: every per-dataset generator
+   (None entries are skipped) gets the new manager, i.e. is rebuilt *)
+Definition md_change (sts : list (option mcgen)) (shgs : list shgT) : res (list (option mcgen)) :=
+  mapM (fun o => match o with
+                 | None => Ok None
+                 | Some st => do s <- mc_init shgs (g_dss st); Ok (Some s)
+                 end) sts.
+
+(* an oracle that MEETS the choice contract: the state is a counter; the i-th
+   drawn index is the (g+i)-th index of non-zero probability, cyclically *)
+Definition pos_idx (p : list Z) : list nat := filter (fun i => 0 <? nth i p 0) (seq 0 (length p)).
+Definition cyc_choice (g : nat) (p : list Z) (k : nat) : list nat * nat :=
+  (map (fun i => nth (Nat.modulo (g + i) (length (pos_idx p))) (pos_idx p) O) (seq 0 k), (g + k)%nat).
+
 (* the oracle used to *run* the model: the generator state is the list of the
    index batches still to be handed out *)
 Definition stream_choice (g : list (list nat)) (p : list Z) (k : nat) : list nat * list (list nat) :=
